@@ -8,7 +8,9 @@ CLAIM = {
              "resolution, exact rational arithmetic) is proved for every prior balance, every posting list and every order of the "
              "residual map: C01_sound (accepted => rounded totals all zero, or exactly one omitted amount, or exactly two non-zero "
              "totals of opposite sign), C01_no_crash (never panics / loops), C01_reject (not balanced => an error, never accepted), "
-             "C01_complete (assertions permitting, all-zero totals or one omitted amount => accepted). The model is tied to /repo on "
+             "C01_complete (assertions permitting, all-zero totals or one omitted amount => accepted); lifted to whole ledgers by "
+             "C01_history (every transaction of an accepted ledger, after any history, is balanced) and C01_named (a failing run "
+             "reports the index of the offending entry, all earlier entries having been processed). The model is tied to /repo on "
              "every run by running the real report::process and the model on the implementation's own parsed tree for generated "
              "ledgers covering the boundary classes (zero-valued residual entries, same-sign pairs, half-unit rounding, zero-quantity "
              "@@, zero / same-commodity rates, lot+cost, 1..6 postings, after histories) and diffing transactions, balances and "
@@ -21,6 +23,7 @@ CLAIM = {
 }
 
 THEOREMS = ["Okane.C01_sound", "Okane.C01_no_crash", "Okane.C01_reject", "Okane.C01_complete",
+            "Okane.C01_history", "Okane.C01_named", "Okane.addTransactionSyntax_core",
             "Okane.balanceAmount_eq_spec", "Okane.BalOK_loop", "Okane.loop_aligned", "Okane.aligned_total", "Okane.loop_omitted"]
 
 FLAVORS = ["pair", "same-sign", "zero-entry", "three-commodity", "half-unit", "unbalanced", "zero-rate",
@@ -33,7 +36,7 @@ def run(chk):
                 "non-trivial = the implementation accepted or rejected it by a book-keeping rule; distinct = distinct ledger texts")
     chk.assumptions = ["rust_decimal is exact on the generated values (small decimals, rates 2^a*5^b)",
                        "the parser is outside this check: the model and the oracle consume the implementation's parsed tree"]
-    if not standard_prologue(chk, THEOREMS):
+    if not standard_prologue(chk, THEOREMS, imports=["Okane.Props.Book"]):
         return
     n = 2500 if chk.tier == "quick" else 60000
     recs = run_stream(chk, n, FLAVORS)
